@@ -38,6 +38,18 @@ func init() {
 			Run: func(x sx.Sx) sx.Sx { return runCost(p, x) },
 		}
 	}
+	// cost.wide (C11: "in time proportional to its size"): the wide and whole-exchange cases of cost.http alone -
+	// items that are large because they hold many names, through Analyze / Summarize / Represent
+	families["cost.wide"] = &Family{
+		Gen: func(r *Rand, tier string, emit func(sx.Sx)) {
+			genCost("http", r, tier, func(c sx.Sx) {
+				if len(c.List) >= 7 {
+					emit(c)
+				}
+			})
+		},
+		Run: func(x sx.Sx) sx.Sx { return runCost("http", x) },
+	}
 }
 
 // tailReader: chunks, then EOF / one error then EOF / errors forever.
@@ -356,7 +368,7 @@ func genCost(proto string, r *Rand, tier string, emit func(sx.Sx)) {
 		if !strings.HasPrefix(g.label, "distinct-") {
 			continue
 		}
-		if tier != "thorough" && g.label != "distinct-headers" && g.label != "distinct-cookies" {
+		if tier != "thorough" && g.label != "distinct-headers" && g.label != "distinct-cookies" && g.label != "distinct-cookies-twice" {
 			continue
 		}
 		rp := growthReply(proto, g.label)
@@ -621,6 +633,27 @@ func growthShapes(proto string) []growthShape {
 						block = block[n:]
 					}
 				})
+			}},
+			{"h2-headers-one-stream", "c", func(k int) []byte {
+				return h2(func(fr *http2.Framer, enc *hpack.Encoder, hb *bytes.Buffer) {
+					fr.WriteHeaders(http2.HeadersFrameParam{StreamID: 1, BlockFragment: reqHeaders(enc, hb, "POST", 0), EndHeaders: true})
+					for i := 0; i < k; i++ {
+						hb.Reset()
+						enc.WriteField(hpack.HeaderField{Name: "x-more", Value: "v"})
+						fr.WriteHeaders(http2.HeadersFrameParam{StreamID: 1, BlockFragment: append([]byte{}, hb.Bytes()...), EndHeaders: true})
+					}
+				})
+			}},
+			{"distinct-cookies-twice", "c", func(k int) []byte {
+				var b bytes.Buffer
+				b.WriteString("GET /r HTTP/1.1\r\nHost: h\r\nCookie: a=b")
+				for round := 0; round < 2; round++ {
+					for i := 0; i < k/2; i++ {
+						fmt.Fprintf(&b, "; c%07d=%d", i, round)
+					}
+				}
+				b.WriteString("\r\n\r\n")
+				return b.Bytes()
 			}},
 			{"h2-pings", "c", func(k int) []byte {
 				return h2(func(fr *http2.Framer, enc *hpack.Encoder, hb *bytes.Buffer) {
